@@ -48,6 +48,80 @@ def full_stage(chk, pid, tier, seed):
     chk.ev.cov["full_feature_outputs"] = nout
 
 
+def change_detail(prev_raw, cur_raw):
+    cats = set()
+    for a, b in zip(prev_raw, cur_raw):
+        if a != b:
+            k = a.split()[0]
+            cats.add("routes" if k in ("route", "cell") else "collections" if k in ("planned", "unplanned", "fixed") else "score")
+    if len(prev_raw) != len(cur_raw):
+        cats.add("routes")
+    for c in ("routes", "collections", "score"):
+        if c in cats:
+            return c
+    return None
+
+
+def nested_stage(chk, pid, tier, seed, names, check_c07):
+    """histories on models with stop groups and initial/fixed stops: correspondence with
+    Model/Units.v, property oracles on the implementation's snapshots with finding shapes"""
+    n = 120 if tier == "quick" else 3000
+    rng = random.Random(seed * 4001 + int(pid[1:]))
+    cases = []
+    for i in range(n):
+        feats = {"groups": True, "initial": rng.random() < 0.5}
+        m = G.gen_model(rng, "small", feats)
+        cases.append({"id": str(i), "model": m, "ops": G.gen_ops(rng, m, 25, "unchecked")})
+    res, st = E.run_cases(cases, "%s_nested_%s" % (pid.lower(), tier), timeout=3000)
+    bad = [r for r in res if r["diff"]]
+    chk.ob("nested units (stop groups, initial/fixed stops): %d histories identical to Model/Units.v" % n, not bad and st[0] == 0 and st[2] == 0,
+           str(bad[0]["diff"])[:500] if bad else (st[1] + st[3])[-300:])
+    nviol = 0
+    for r in res:
+        m = r["case"]["model"]
+        ctx = O.Ctx(m)
+        lines = [l for l in r["impl"] if not l.startswith("S")]
+        targets = {}
+        for l in lines:
+            f = l.split()
+            if len(f) >= 3 and f[1] == "target":
+                targets[int(f[0])] = int(f[2])
+        steps = O.parse_steps([l for l in lines if " target " not in l])
+        ops = r["case"]["ops"]
+        tainted = False
+        prev = None
+        reported = False
+        for st_ in steps:
+            k = st_["step"]
+            op = ops[k - 1].split()[1] if k >= 1 and k - 1 < len(ops) else "build"
+            group = targets.get(k, 0) >= 1000
+            fails = []
+            if st_["routes"]:
+                for name in names:
+                    fl = O.ALL[name](ctx, st_)
+                    if fl:
+                        fails.append((name, "score" if name == "C05" else "collections" if name == "C08" else "routes", fl[0]))
+                if check_c07 and prev is not None and st_["result"] in ("notdone", "noop") and st_["raw"] != prev["raw"]:
+                    fails.append(("C07", change_detail(prev["raw"], st_["raw"]), "operation reported failure but the solution changed"))
+                if check_c07 and st_["result"] == "error":
+                    fails.append(("C07", "error", "operation returned an engine error"))
+            if fails and not reported:
+                name, detail, msg = fails[0]
+                reported = True
+                nviol += 1
+                chk.violation({"kind": "history", "what": msg, "oracle": name, "step": k,
+                               "finding_shape": {"kind": "nested", "oracle": name, "op": op, "result": st_["result"],
+                                                 "group": group, "detail": detail, "tainted": tainted},
+                               "case": G.case_lines(m, ops[:k])})
+            if op in ("munplanr", "vunplanr") or (op == "unplanr" and group) or (op in ("planr", "plancr") and group and st_["result"] != "done") \
+                    or (op == "build" and fails):
+                tainted = True
+            prev = st_
+    chk.ob("property predicates on nested-unit histories (violations matching a listed finding are reported as KNOWN-FINDING)", not chk.violations)
+    chk.ev.cov["nested_histories"] = n
+    chk.ev.cov["nested_oracle_hits"] = nviol
+
+
 def solver_settings(rng, m):
     return {"iterations": rng.choice([30, 150, 500]), "duration_ms": 4000, "runs": rng.choice([1, 2]),
             "starts": rng.choice([0, 1, 2]), "det": 1, "repeat": 1, "snap": 1}
@@ -156,6 +230,8 @@ def run(pid, tier, seed, oracle_names, title, feats=None, check_c07=False, extra
     chk.ev.assume("integer-valued inputs (float64 exact); stops units only in the modelled core so far (groups/alternates/no-mix/initial stops/duration groups pending)")
     if pid in ("C01", "C02", "C03", "C04", "C05", "C08", "C20"):
         full_stage(chk, pid, tier, seed)
+    if pid in ("C03", "C05", "C07", "C08"):
+        nested_stage(chk, pid, tier, seed, [x for x in oracle_names if x in ("C03", "C05", "C08")], check_c07)
     if extra:
         extra(chk, res)
     return chk.finish()
